@@ -355,6 +355,9 @@ def powMod (b e m : Int) : Except PyErr Int :=
   else if e < 0 ∨ m < 0 then .error .other
   else .ok ((Secp.powMod (b % m).toNat e.toNat m.toNat : Nat) : Int)
 
+/-- `memoryview(b).tolist()` / `list(b)`: the bytes as ints -/
+def intsOfBytes (b : Bytes) : List Int := b.map fun u => (u.toNat : Int)
+
 /-! ### hex strings as real strings: `str.strip`, `bytes.fromhex`, `int(s, 16)` -/
 
 /-- `c.isspace()` for an ASCII character: what `str.strip()` removes — `\t \n \v \f \r`, `\x1c`–`\x1f` and the space -/
